@@ -342,6 +342,10 @@ fn eqn(a: List[List[u64]], b: List[List[u64]]) -> bool { a == b }
 fn has(a: List[List[u64]], b: List[u64]) -> bool { a.contains(b) }
 fn lit() -> List[List[u64]] { let x = [1, 2]; let o = [x, x, [3]]; x.push(7); o }
 fn total(o: List[List[u64]]) -> u64 { let n = 0; for l in o { for v in l { n = n + v; } } n }
+fn mkf(x: f64, y: f64) -> List[List[f64]] { [[x], [y, x]] }
+fn eqf(a: List[List[f64]], b: List[List[f64]]) -> bool { a == b }
+fn hasf(a: List[List[f64]], x: f64) -> bool { a.contains([x]) }
+fn idxf(a: List[List[f64]], y: f64, x: f64) -> u64? { a.index([y, x]) }
 ";
     let mut pkg = match FileTree::test_file("nested.roto", src, 0).compile(&rt) {
         Ok(p) => p,
@@ -367,5 +371,36 @@ fn total(o: List[List[u64]]) -> u64 { let n = 0; for l in o { for v in l { n = n
     out.push(("script-literal-shares", vv(&l) == vec![vec![1, 2, 7], vec![1, 2, 7], vec![3]], format!("{:?}", vv(&l))));
     let total: F<fn(List<List<u64>>) -> u64> = pkg.get_function("total").unwrap();
     out.push(("script-nested-for", total.call(l.clone()) == 23, format!("{}", total.call(l.clone()))));
+    // inner lists of floats built by the script (no clone function in their vtable): the
+    // outer `==` / `contains` / `index` compare them through `ErasedList::eq`, which must use
+    // the element `==` (0.0 == -0.0, NaN != NaN) exactly as `Vec<Vec<f64>>` does
+    let mkf: F<fn(f64, f64) -> List<List<f64>>> = pkg.get_function("mkf").unwrap();
+    let eqf: F<fn(List<List<f64>>, List<List<f64>>) -> bool> = pkg.get_function("eqf").unwrap();
+    let hasf: F<fn(List<List<f64>>, f64) -> bool> = pkg.get_function("hasf").unwrap();
+    let idxf: F<fn(List<List<f64>>, f64, f64) -> Option<u64>> = pkg.get_function("idxf").unwrap();
+    let vf = |x: f64, y: f64| -> Vec<Vec<f64>> { vec![vec![x], vec![y, x]] };
+    for (name, (x1, y1), (x2, y2)) in [
+        ("script-nested-f64-eq-zeros", (0.0f64, 1.5f64), (-0.0f64, 1.5f64)),
+        ("script-nested-f64-eq-nan", (f64::NAN, 1.5), (f64::NAN, 1.5)),
+        ("script-nested-f64-eq-differ", (1.0, 1.5), (1.0, 2.5)),
+    ] {
+        let got = eqf.call(mkf.call(x1, y1), mkf.call(x2, y2));
+        let want = vf(x1, y1) == vf(x2, y2);
+        out.push((name, got == want, format!("{got} vs Vec<Vec<f64>> {want}")));
+    }
+    for (name, (x, y), item) in [
+        ("script-nested-f64-contains-zero", (0.0f64, 1.5f64), -0.0f64),
+        ("script-nested-f64-contains-nan", (f64::NAN, 1.5), f64::NAN),
+        ("script-nested-f64-contains-miss", (1.0, 1.5), 2.0),
+    ] {
+        let got = hasf.call(mkf.call(x, y), item);
+        let want = vf(x, y).contains(&vec![item]);
+        out.push((name, got == want, format!("{got} vs Vec<Vec<f64>> {want}")));
+    }
+    {
+        let got = idxf.call(mkf.call(-0.0, 1.5), 1.5, 0.0);
+        let want = vf(-0.0, 1.5).iter().position(|v| *v == vec![1.5, 0.0]).map(|i| i as u64);
+        out.push(("script-nested-f64-index-zero", got == want, format!("{got:?} vs Vec<Vec<f64>> {want:?}")));
+    }
     out
 }
